@@ -110,9 +110,17 @@ impl Oracle for ValueOracle {
                     (Ok(()), false) => {}
                 }
             }
-            StepRes::Interned { real, want } => {
-                if (real.0, real.2) != *want {
-                    out.push(viol("interned-readback", cx.idx, format!("interned {want:?} read back {real:?}")));
+            StepRes::Interned { real, want } => match real {
+                Ok(real) => {
+                    if (real.0, real.2) != *want {
+                        out.push(viol("interned-readback", cx.idx, format!("interned {want:?} read back {real:?}")));
+                    }
+                }
+                Err(p) => out.push(viol("unexpected-panic", cx.idx, format!("{:?}: {}", cx.step, p.text()))),
+            },
+            StepRes::Maint { real } => {
+                if let Err(p) = real {
+                    out.push(viol("unexpected-panic", cx.idx, format!("{:?}: {}", cx.step, p.text())));
                 }
             }
             StepRes::Other => {}
@@ -158,5 +166,7 @@ pub fn spec_c01() -> PropSpec {
         tape_len: 400,
         make: || vec![Box::new(ValueOracle::new())],
         nt_rule: "case has >=1 write followed by a Get whose log shows both DidValidateMemoizedValue and WillExecute, and the program contains If/NewEnt/Intern/Untracked",
+        engine: "seq",
+        runner: None,
     }
 }
